@@ -127,7 +127,7 @@ let view_ops = [| "node"; "out"; "in"; "neighbors_edges_mismatch"; "erefs"; "nma
                   "dfs"; "dfs_moveto"; "dfs_reset"; "dfspost"; "bfs"; "topo"; "topo_with_initials"; "dfsvisit"; "dfspost_moveto"; "dfspost_reset";
                   "connected_components"; "is_cyclic_undirected"; "toposort"; "toposort2"; "is_cyclic_directed"; "has_path";
                   "kosaraju"; "tarjan"; "bipartite"; "condensation";
-                  "dijkstra"; "astar"; "ksp"; "bellman_ford"; "find_negative_cycle"; "spfa"; "floyd_warshall"; "floyd_warshall_path"; "_38"; "_39"; "kruskal"; "prim"; "toposort3"; "has_path3"; "_44"; "_45"; "_46"; "_47"; "_48"; "_49"; "greedy_matching"; "maximum_matching"; "ford_fulkerson"; "simple_fast"; "articulation_points"; "_55"; "_56"; "_57"; "_58"; "_59"; "maximal_cliques"; "dsatur"; "fas"; "tred"; "all_simple_paths"; "steiner"; "page_rank" |]
+                  "dijkstra"; "astar"; "ksp"; "bellman_ford"; "find_negative_cycle"; "spfa"; "floyd_warshall"; "floyd_warshall_path"; "_38"; "_39"; "kruskal"; "prim"; "toposort3"; "has_path3"; "_44"; "_45"; "_46"; "_47"; "_48"; "_49"; "greedy_matching"; "maximum_matching"; "ford_fulkerson"; "simple_fast"; "articulation_points"; "_55"; "_56"; "_57"; "_58"; "_59"; "maximal_cliques"; "dsatur"; "fas"; "tred"; "all_simple_paths"; "steiner"; "page_rank"; "prank" |]
 let graph_ops = [| "add_node"; "try_add_node"; "add_edge"; "try_add_edge"; "update_edge"; "try_update_edge";
                    "remove_node"; "remove_edge"; "reverse"; "clear"; "clear_edges"; "retain_nodes"; "retain_edges";
                    "extend_with_edges"; "filter_map"; "into_edge_type"; "set_node_weight"; "set_edge_weight";
